@@ -8,6 +8,7 @@ import (
 	"os"
 	"sort"
 	"strings"
+	"syscall"
 	"testing/iotest"
 	"time"
 
@@ -84,6 +85,48 @@ func init() {
 				return "timeout"
 			}
 		}
+	}
+	// clfifo text: ParseFile / ParseFileOne on a path that is a FIFO (a named pipe fed by another process, /dev/stdin, a
+	// process substitution): a file that can be read once, front to back, and cannot seek
+	ops["clfifo"] = func(a []string) string {
+		dir, err := ioutil.TempDir("/var/tmp", "verif-fifo-")
+		if err != nil {
+			return "harness-error"
+		}
+		defer os.RemoveAll(dir)
+		feed := func(p string) {
+			if err := syscall.Mkfifo(p, 0600); err != nil {
+				return
+			}
+			go func() {
+				f, err := os.OpenFile(p, os.O_WRONLY, 0)
+				if err != nil {
+					return
+				}
+				f.WriteString(arg(a, 0))
+				f.Close()
+			}()
+		}
+		ref := showEntries(changelog.Parse(strings.NewReader(arg(a, 0))))
+		feed(dir + "/a")
+		if got := showEntries(changelog.ParseFile(dir + "/a")); got != ref {
+			return "diff ParseFile " + got
+		}
+		feed(dir + "/b")
+		one, err := changelog.ParseFileOne(dir + "/b")
+		s1 := "err"
+		if err == nil && one != nil {
+			s1 = showEntries(changelog.ChangelogEntries{*one}, nil)
+		}
+		want, err := changelog.ParseOne(bufio.NewReader(strings.NewReader(arg(a, 0))))
+		s2 := "err"
+		if err == nil && want != nil {
+			s2 = showEntries(changelog.ChangelogEntries{*want}, nil)
+		}
+		if s1 != s2 {
+			return "diff ParseFileOne " + s1
+		}
+		return "same"
 	}
 	// clparse2 first second: Parse(first) - whatever it gives - and then Parse(second) in the same process, at once
 	ops["clparse2"] = func(a []string) string {
